@@ -84,6 +84,21 @@ type c10AllKinds struct {
 	IfU gojson.Unmarshaler
 }
 
+type c10CtxKey struct{}
+
+// c10CtxSeen reports the value its context carries under c10CtxKey ("none" without one).
+type c10CtxSeen struct{ seen string }
+
+func (u *c10CtxSeen) UnmarshalJSON(ctx context.Context, b []byte) error {
+	u.seen = "none"
+	if ctx != nil {
+		if v := ctx.Value(c10CtxKey{}); v != nil {
+			u.seen = fmt.Sprint(v)
+		}
+	}
+	return nil
+}
+
 func c10AllKindsDoc(id int) []byte {
 	w := fmt.Sprintf("g%07d", id)
 	ws := strings.Repeat(w, 5)
@@ -145,7 +160,24 @@ func c10Trial(c *rt.Ctx, sub int, r *rand.Rand, G, procs, opsPer int, yieldMode 
 		var ops []c10Op
 		for k := 0; k < opsPer; k++ {
 			id := g*100000 + k
-			switch rr.Intn(26) {
+			switch rr.Intn(28) {
+			case 26, 27:
+				// what one Decoder is told through DecodeWithOption / DecodeContext stays with that call:
+				// a first-win decode, a plain decode of the same duplicate-key document and a context
+				// decode whose unmarshaler reports the value found in the context it is handed
+				ops = append(ops, c10Op{name: "decode:decoder-options", run: func() (string, string) {
+					doc := fmt.Sprintf(`{"a":%d,"a":%d}`, id, id+1)
+					var first, last struct {
+						A int `json:"a"`
+					}
+					e1 := gojson.NewDecoder(strings.NewReader(doc)).DecodeWithOption(&first, gojson.DecodeFieldPriorityFirstWin())
+					e2 := gojson.NewDecoder(strings.NewReader(doc)).Decode(&last)
+					var cu, pu c10CtxSeen
+					ctx := context.WithValue(context.Background(), c10CtxKey{}, id)
+					e3 := gojson.NewDecoder(strings.NewReader(`{"x":1}`)).DecodeContext(ctx, &cu)
+					e4 := gojson.NewDecoder(strings.NewReader(`{"x":2}`)).Decode(&pu)
+					return fmt.Sprint(first.A, last.A, cu.seen, pu.seen, errS(e1), errS(e2), errS(e3), errS(e4)), fmt.Sprint(id, id+1, id, "none")
+				}})
 			case 24, 25:
 				// a document only this call has, into one member per decoder kind, through a
 				// rotating entry point; the answer is encoding/json's for the same document
